@@ -1,5 +1,6 @@
 import Syzgy.Lemmas.LshInv
 import Syzgy.Lemmas.LshRadius
+import Syzgy.Lemmas.LshRun
 /-!
 # C05 — the ANN index refers to exactly the live documents
 
@@ -125,5 +126,27 @@ theorem covering_radius_complete (searchK K R maxRadius : Nat) (hR : 0 < R) (hsK
     ∀ t ∈ forest, ∀ id ∈ t.ids, ∀ c, lookup id = some c → c.acc = true →
       c ∈ (search searchK K R maxRadius forest lookup hpDist hpRight).1 :=
   radius_complete searchK K R maxRadius hR hsK forest lookup hpDist hpRight hlive hgeo
+
+/-- **After any history** of inserts, overwrites with a different vector, metadata updates and removals
+    (down to the empty collection and up again), each tree of the index satisfies the invariant with
+    respect to the stored vectors: its ids are exactly the live ids, each once, routed by the stored
+    vector — for every side oracle, split rule and leaf threshold. `istep` is what `AddDocument`,
+    `removeDocument` and `UpdateDocument` do to a tree (call order regenerated from the source:
+    `Tie.Search.index_glue`). -/
+theorem index_after_any_history (threshold : Nat) (side : H → V → Bool) (choose : List Nat → Option H)
+    (ops : List (IOp V)) :
+    ∃ s', irun threshold side choose { store := fun _ => none, live := [], tree := .leaf [] } ops = .ok s' ∧
+      TreeInv side s'.store s'.live s'.tree ∧ s'.live.Nodup ∧ (∀ i, i ∈ s'.live ↔ s'.store i ≠ none) ∧
+      s'.store = ops.foldl ispec (fun _ => none) ∧ s'.tree.ids.Perm s'.live := by
+  have h0 : IInv side ({ store := fun _ => none, live := [], tree := .leaf [] } : IState V) :=
+    ⟨empty_inv side _, List.nodup_nil, fun i => by simp⟩
+  obtain ⟨s', e, h, hs⟩ := irun_inv threshold side choose ops _ h0
+  exact ⟨s', e, h.inv, h.nodup, h.exact, hs, h.inv.perm⟩
+
+/-- the same from any state that satisfies the invariant, e.g. the rebuilt index after a reopen (`rebuild`) -/
+theorem index_history_from (threshold : Nat) (side : H → V → Bool) (choose : List Nat → Option H)
+    (ops : List (IOp V)) (s : IState V) (h : IInv side s) :
+    ∃ s', irun threshold side choose s ops = .ok s' ∧ IInv side s' ∧ s'.store = ops.foldl ispec s.store :=
+  irun_inv threshold side choose ops s h
 
 end Syzgy.C05
